@@ -441,7 +441,7 @@ ObsOf(kind, s) == IF IsSeqK(kind) THEN SeqObs(s) ELSE MapObs(s, HKeys)
 SameObs(kind, a, b) ==
   /\ a.len = b.len /\ a.empty = b.empty /\ a.iter = b.iter
   \* b = recorded; placeholders never show up in the printed output (what else is printed is C06's matter)
-  /\ IsSeqK(kind) \/ (a.get = b.get /\ a.has = b.has /\ b.owned = a.iter /\ \A x \in 1..Len(b.printed) : \E y \in 1..Len(a.printed) : a.printed[y] = b.printed[x])
+  /\ IsSeqK(kind) \/ (a.get = b.get /\ a.has = b.has /\ b.owned = a.iter /\ b.iter_mut = a.iter /\ \A x \in 1..Len(b.printed) : \E y \in 1..Len(a.printed) : a.printed[y] = b.printed[x])
 RECURSIVE HistSim(_, _, _, _)
 HistSim(kind, states, ops, j) ==
   IF j > Len(ops) THEN 0
